@@ -12,7 +12,22 @@ A *problem* is a JSON-able dict
               'four': bool (hexagonal only: hand over [uvtw], (hkil) and a 4-index Burgers vector)},
    'bsol': [b_m, b_n, b_xi]   Burgers vector by its components in the solution frame (m, n, xi): the Burgers vector handed
                               to the solver is T^t bsol (Cartesian crystal frame) or that vector in lattice coordinates,
-   'aslist': bool             arguments as nested lists instead of arrays}
+   'aslist': bool             arguments as nested lists instead of arrays,
+   'bgiven': [3 or 4 numbers] optional: the EXACT Burgers vector to hand over (Cartesian crystal frame or lattice coordinates,
+                              halves / eighths of integers); 'bsol' is then derived from it (see exact_b)}
+
+Cross-pollination round (generator classes, see /verif/seeded/INDEX.md):
+  orient  {'kind': 'rows', 'rows': [[ints]] * 3, 'via': ..., 'sub': 'perm' | 'int'}   EXACTLY structured orientation: a proper signed
+          permutation of the axes with integer row lengths, or an orthogonal right-handed triple of integer vectors ([1 1 -2],
+          [1 1 1], [1 -1 0] ...): the way orientations are written by hand; representable in every dtype
+          {'kind': 'transform', ..., 'near': True}   a rotation 1e-12 .. 1e-2 degrees away from the identity / a quarter, half or
+          third turn about a crystal axis (almost-special orientation)
+  mn      {'kind': 'axis', 'm': [0, -1, 0], 'n': [0, 0, 1]}   the 24 perpendicular pairs of SIGNED Cartesian axes handed over as vectors
+          {'kind': 'vec', ..., 'near': True}   the default pair rotated by 1e-12 .. 1e-2 degrees (or that close to a quarter turn ...)
+  box     family 'near_<family>': the lattice parameters of a cubic / hexagonal / tetragonal / orthorhombic cell with relative
+          deviations 1e-12 .. 1e-6 in the lengths and 1e-12 .. 1e-6 degrees in the angles (box_vects zeroes what lies below
+          3e-9 of the largest entry: Box's documented 1e-9 clean-up cannot make a difference)
+  points  local points 1e-12 .. 1e-3 (relative) off the +x, +y and -y axes of the frame (never that close to the cut)
 
 Field points are local coordinates [x, y, z] in the (m, n, xi) frame: pos = x m + y n + z xi, with 0.3 <= hypot(x,y) <= 45
 and at least 0.05 rad away from the cut half-plane (y = 0, x < 0).
@@ -35,24 +50,56 @@ _sel = st.integers(0, 11)
 _axis = st.lists(st.integers(-5, 5), min_size=3, max_size=3).filter(any)
 _angle = st.one_of(gens.nice(5.0, 175.0, 2), gens.nice(5.0, 175.0, 2), st.sampled_from([90.0, 180.0, 120.0, 45.0]))
 _rot = st.tuples(_axis, _angle).map(list)
+_NEAR_BASE = [([0, 0, 1], 0.0), ([1, 2, -2], 0.0), ([3, -1, 1], 0.0), ([0, 0, 1], 90.0), ([1, 0, 0], 90.0), ([0, 1, 0], -90.0),
+              ([1, 1, 1], 120.0), ([0, 0, 1], 180.0), ([1, 1, 0], 180.0), ([1, -1, 1], -120.0)]
+_near_base = st.sampled_from(_NEAR_BASE)
+_near_k = st.sampled_from([2, 3, 4, 5, 6, 6, 7, 7, 8, 8, 9, 10, 11, 12])
 _rowscale = st.lists(st.sampled_from([1.0, 1.0, 2.0, 0.5, 3.7, 0.013, 41.0]), min_size=3, max_size=3)
 _strpairs = st.sampled_from([('x', 'y'), ('y', 'z'), ('z', 'x'), ('y', 'x'), ('z', 'y'), ('x', 'z')])
 _strpass = st.sampled_from(['ss', 'ss', 'sv', 'vs'])
 _mag = st.one_of(gens.nice(0.5, 8.0, 3), gens.nice(0.5, 8.0, 3), st.sampled_from([1.0, 2.5, 2.8556]))
 _sign = st.sampled_from([1.0, -1.0])
 _ratio = st.sampled_from([1e-2, 1e-4, 1e-6])
+_ratio_e = st.sampled_from([1e-7, 3e-8, 1e-9, 1e-10, 1e-12])       # around the documented zeroing threshold tol = 1e-8 (never on it)
 _cscale = st.sampled_from([1.0, 1.0, EV_A3])
 _small = st.integers(-3, 3)
 _mult = st.sampled_from([1, 1, 1, 2, 3])
 _uvw = st.lists(_small, min_size=3, max_size=3).filter(any)
 _fam = st.sampled_from(['unit', 'cubic', 'cubic', 'hexagonal', 'hexagonal', 'orthorhombic', 'tetragonal', 'monoclinic',
-                        'triclinic'])
+                        'triclinic', 'near'])
+_near_fam = st.sampled_from(['cubic', 'hexagonal', 'hexagonal', 'tetragonal', 'orthorhombic'])
+_near_ck = st.sampled_from([6, 7, 8, 9, 10, 12])
+_sgn0 = st.sampled_from([1.0, -1.0, 0.0])
+
+
+def pow10(k):
+    return float('1e%d' % int(k))
+
+
+@st.composite
+def near_rot(draw):
+    """[axis, angle]: 1e-12 .. 1e-2 degrees away from the identity or from a quarter / half / third turn about a crystal axis"""
+    ax, a0 = draw(_near_base)
+    return [list(ax), a0 + draw(_sign) * pow10(-draw(_near_k))]
+
+
+@st.composite
+def _near_cell(draw):
+    fam = draw(_near_fam)
+    fp = draw(gens.family_params(fam))
+    d = [draw(_sgn0) * pow10(-draw(_near_ck)) for _ in range(6)]
+    if not any(d):
+        d[1] = 1e-9
+    a, b, c, al, be, ga = fp['abc']
+    return {'family': 'near_' + fam, 'abc': [a * (1 + d[0]), b * (1 + d[1]), c * (1 + d[2]), al + d[3], be + d[4], ga + d[5]]}
 
 
 @functools.lru_cache(maxsize=None)
 def _famparams(fam):
     if fam == 'unit':            # no box handed over: indices are taken with respect to a cubic cell with a = 1
         return st.just({'family': 'unit', 'abc': [1.0, 1.0, 1.0, 90.0, 90.0, 90.0]})
+    if fam == 'near':
+        return _near_cell()
     return gens.family_params(fam)
 
 # isotropic medium: E in [1,600], nu on a grid in [0.0001, 0.495] or exactly 0 (nu of order 1e-8 sits on the zeroing
@@ -180,8 +227,50 @@ def mn_specs():
             m, n = draw(_strpairs)
             # 'ss': both as strings; 'sv' / 'vs': one as string, the other as the unit vector it stands for
             return {'kind': 'str', 'm': m, 'n': n, 'pass': draw(_strpass)}
+        if w == 5:
+            m, n = draw(_axpairs)
+            return {'kind': 'axis', 'm': list(m), 'n': list(n)}
+        if w == 6 and draw(_bool):
+            return {'kind': 'vec', 'rot': draw(near_rot()), 'near': True}
         return {'kind': 'vec', 'rot': draw(_rot)}
     return _mn()
+
+
+def _signed_axes():
+    out = []
+    for i in range(3):
+        for s in (1, -1):
+            v = [0, 0, 0]
+            v[i] = s
+            out.append(tuple(v))
+    return out
+
+
+AXPAIRS = [(a, b) for a in _signed_axes() for b in _signed_axes() if not any(x and y for x, y in zip(a, b))]       # 24 pairs
+_axpairs = st.sampled_from(AXPAIRS)
+
+
+def _signed_perms():
+    """the 24 proper rotations that map the Cartesian axes onto each other, as integer matrices"""
+    out = []
+    for p in _PERMS:
+        for sx in (1, -1):
+            for sy in (1, -1):
+                for sz in (1, -1):
+                    M = [[0, 0, 0] for _ in range(3)]
+                    for i, sg in enumerate((sx, sy, sz)):
+                        M[i][p[i]] = sg
+                    if round(float(np.linalg.det(np.array(M, dtype=float)))) == 1:
+                        out.append(M)
+    return out
+
+
+def int_triple(a, other):
+    """right-handed orthogonal triple of integer vectors whose first member is a"""
+    b = _perp_plane(a, other)
+    c = np.cross(np.array(a, dtype=int), np.array(b, dtype=int))
+    gc = int(np.gcd.reduce(np.abs(c)))
+    return [[int(v) for v in a], b, [int(v) for v in c // gc]]
 
 
 def _perp_plane(uvw, other):
@@ -196,6 +285,37 @@ def _perp_plane(uvw, other):
     return [int(v) for v in c // g]
 
 
+@st.composite
+def miller_spec(draw):
+    fp = draw(_famparams(draw(_fam)))
+    uvw = draw(_uvw)
+    k = draw(_mult)                               # planes need not be given in lowest terms
+    hkl = [k * v for v in _perp_plane(uvw, draw(_uvw))]      # integer plane indices with h u + k v + l w = 0
+    return {'kind': 'miller', 'box': fp, 'uvw': uvw, 'hkl': hkl,
+            'four': bool(fp['family'].endswith('hexagonal') and draw(_bool))}
+
+
+SIGNED_PERMS = _signed_perms()
+_sperm = st.sampled_from(SIGNED_PERMS)
+_introw = st.sampled_from([1, 1, 1, 2, 3, 5])
+_cyc = st.integers(0, 2)
+
+
+@st.composite
+def rows_spec(draw):
+    """exactly structured orientation: integer rows, orthogonal and right-handed by construction"""
+    via = 'axes' if draw(_sel) < 5 else 'transform'
+    if draw(_bool):
+        P = draw(_sperm)
+        k = [draw(_introw) for _ in range(3)]
+        return {'kind': 'rows', 'rows': [[k[i] * v for v in P[i]] for i in range(3)], 'via': via, 'sub': 'perm'}
+    T = int_triple(draw(_uvw), draw(_uvw))
+    c = draw(_cyc)                                    # cyclic relabelling keeps the triple right-handed
+    T = T[c:] + T[:c]
+    k = [draw(_mult) for _ in range(3)]
+    return {'kind': 'rows', 'rows': [[k[i] * v for v in T[i]] for i in range(3)], 'via': via, 'sub': 'int'}
+
+
 @functools.lru_cache(maxsize=None)
 def orient_specs():
     @st.composite
@@ -203,15 +323,15 @@ def orient_specs():
         w = draw(_sel)
         if w == 0:
             return {'kind': 'none'}
+        if w == 6:
+            return draw(rows_spec())
+        if w == 5 and draw(_bool):
+            return {'kind': 'transform', 'rot': draw(near_rot()), 'rowscale': draw(_rowscale),
+                    'via': 'axes' if draw(_sel) < 3 else 'transform', 'near': True}
         if w <= 6:
             return {'kind': 'transform', 'rot': draw(_rot), 'rowscale': draw(_rowscale),
                     'via': 'axes' if draw(_sel) < 3 else 'transform'}
-        fp = draw(_famparams(draw(_fam)))
-        uvw = draw(_uvw)
-        k = draw(_mult)                               # planes need not be given in lowest terms
-        hkl = [k * v for v in _perp_plane(uvw, draw(_uvw))]      # integer plane indices with h u + k v + l w = 0
-        return {'kind': 'miller', 'box': fp, 'uvw': uvw, 'hkl': hkl,
-                'four': bool(fp['family'] == 'hexagonal' and draw(_bool))}
+        return draw(miller_spec())
     return _o()
 
 
@@ -230,6 +350,8 @@ def burgers(in_plane):
             return [a, 0.0, b]                     # mixed, in the slip plane
         if w == 8:                                 # mixed with one component far smaller than the other (kept: > 1e-8)
             q = draw(_ratio)
+            if draw(_sel) <= 2:                    # ... or on either side of the documented zeroing threshold tol = 1e-8
+                q = draw(_ratio_e)
             return [a * q, 0.0, b] if draw(_bool) else [a, 0.0, b * q]
         if in_plane:
             return [a, 0.0, b]
@@ -250,11 +372,22 @@ _phi = st.one_of(gens.nice(-177.0, 177.0, 3), gens.nice(-177.0, 177.0, 3),
 _z = st.one_of(gens.nice(-10.0, 10.0, 3), st.just(0.0))
 
 
+_NEAR_AX = [(1.0, 0.0), (0.0, 1.0), (0.0, -1.0), (1.0, 0.0), (0.0, 1.0), (0.0, -1.0), (1.0, 1.0), (-1.0, 1.0)]
+_near_ax = st.sampled_from(_NEAR_AX)
+_near_pk = st.integers(3, 12)
+
+
 @st.composite
 def local_point(draw):
-    if draw(_sel) <= 1:
+    w = draw(_sel)
+    if w <= 1:
         x, y = draw(_exact_xy)
         return [x, y, draw(_exact_z)]
+    if w == 2:
+        # 1e-12 .. 1e-3 (relative) off the +x, +y, -y axis of the frame or off a diagonal (never that close to the cut)
+        ax, ay = draw(_near_ax)
+        r, d = draw(_r), draw(_sign) * pow10(-draw(_near_pk))
+        return [r * (ax - d * ay), r * (ay + d * ax), draw(_exact_z)]
     r, phi = draw(_r), draw(_phi)
     t = math.radians(phi)
     return [r * math.cos(t), r * math.sin(t), draw(_z)]
@@ -287,9 +420,46 @@ def problems(solver=None, aniso=None):
         else:
             C = draw(tens)
         isotropic = C['kind'] == 'neariso' or (C['kind'] == 'named' and C['system'] == 'isotropic')
-        return {'C': C, 'cscale': draw(_cscale), 'solver': s, 'mn': draw(mn_specs()), 'orient': draw(orient_specs()),
+        prob = {'C': C, 'cscale': draw(_cscale), 'solver': s, 'mn': draw(mn_specs()), 'orient': draw(orient_specs()),
                 'bsol': draw(burgers(isotropic)), 'aslist': draw(_bool)}
+        if prob['orient']['kind'] in ('rows', 'miller') and draw(_sel) <= (7 if prob['orient']['kind'] == 'rows' else 2):
+            prob = exact_b(prob, draw(_small), draw(_small), draw(_small), isotropic)
+        return prob
     return _p()
+
+
+def exact_b(prob, i, j, k, in_plane):
+    """the Burgers vector as it is written by hand: halves of lattice vectors (Miller orientation: (i [uvw] + j [hkl x uvw]) / 2 in
+    lattice coordinates, in the slip plane of ANY cell) or eighths of the integer orientation rows (rows orientation with axis-
+    aligned m, n: the rows that become m and xi, and - not for the isotropic class - the one that becomes n).  'bgiven' is handed
+    over as it stands; 'bsol' is what it amounts to in the (m, n, xi) frame (components below 1e-13 of the largest: exact zeros
+    of the construction).  Returns prob unchanged where the construction does not apply."""
+    o = prob['orient']
+    m, n, xi = vr.frame_of(prob['mn'])
+    if not (i or j):
+        i = 1
+    if o['kind'] == 'miller':
+        u, h = np.array(o['uvw'], dtype=int), np.array(o['hkl'], dtype=int)
+        lat = (i * u + j * np.cross(h, u)) / 2.0
+        bc = lat @ box_vects(o['box'])
+        given = three_to_four_vector(lat.tolist()) if o['four'] else lat.tolist()
+    elif o['kind'] in ('rows', 'none') and prob['mn']['kind'] in ('default', 'str', 'axis'):
+        R = np.array(o['rows'], dtype=int) if o['kind'] == 'rows' else np.eye(3, dtype=int)
+        pm, pn, px = (int(np.argmax(np.abs(v))) for v in (m, n, xi))
+        bc = (i * R[pm] + j * R[px] + (0 if in_plane else k) * R[pn]) / 8.0
+        given = bc.tolist()
+    else:
+        return prob
+    if np.abs(bc).max() > 40.0:
+        return prob
+    T = expected_transform(prob, m, n)
+    b = T @ bc
+    bs = np.array([b @ m, b @ n, b @ xi])
+    bs[np.abs(bs) < 1e-13 * np.abs(bs).max()] = 0.0
+    prob = dict(prob)
+    prob['bsol'] = [float(v) for v in bs]
+    prob['bgiven'] = [float(v) for v in given]
+    return prob
 
 
 # ----------------------------------------------------------------------------- case -> numbers (pure numpy)
@@ -310,8 +480,12 @@ def is_isotropic(prob):
 
 
 def box_vects(fp):
+    """cell vectors of a set of lattice parameters; entries below 3e-9 of the largest are zero (cos 90 deg = 6e-17, and the tilts of
+    the almost-special cells): what Box's documented clean-up (1e-9 of the largest entry) would remove is not there"""
     lx, ly, lz, xy, xz, yz = gens.abc_to_lammps(*fp['abc'])
-    return np.array([[lx, 0.0, 0.0], [xy, ly, 0.0], [xz, yz, lz]])
+    V = np.array([[lx, 0.0, 0.0], [xy, ly, 0.0], [xz, yz, lz]])
+    V[np.abs(V) < 3e-9 * np.abs(V).max()] = 0.0
+    return V
 
 
 def expected_transform(prob, m, n):
@@ -321,6 +495,9 @@ def expected_transform(prob, m, n):
         return np.eye(3)
     if o['kind'] == 'transform':
         return vr.rotation_matrix(*o['rot'])
+    if o['kind'] == 'rows':
+        R = np.array(o['rows'], dtype=float)
+        return R / np.sqrt((R * R).sum(axis=1))[:, None]
     return vr.miller_transform(box_vects(o['box']), o['uvw'], o['hkl'], m, n)
 
 
@@ -341,6 +518,8 @@ def labels_of(prob):
         labs.add('b_mixed')
         if min(abs(bm), abs(bx)) < 0.05 * max(abs(bm), abs(bx)):
             labs.add('b_tiny_component')
+        if min(abs(bm), abs(bx)) < 0.5e-6 * max(abs(bm), abs(bx)):
+            labs.add('b_component_near_tol')
     elif bm:
         labs.add('b_edge')
     else:
@@ -350,8 +529,20 @@ def labels_of(prob):
         labs.add('box_' + o['box']['family'])
         if o['four']:
             labs.add('four_index')
-    if o['kind'] == 'transform' and o['via'] == 'axes':
+    if o['kind'] in ('transform', 'rows') and o['via'] == 'axes':
         labs.add('via_axes')
+    if o['kind'] == 'rows':
+        labs.add('rows_' + o['sub'])
+    if o.get('near'):
+        labs.add('orient_near_special')
+    if prob['mn'].get('near'):
+        labs.add('mn_near_special')
+    if o.get('near') or prob['mn'].get('near') or (o['kind'] == 'miller' and o['box']['family'].startswith('near_')):
+        labs.add('near_special')
+    if o['kind'] == 'rows' or prob['mn']['kind'] == 'axis' or 'bgiven' in prob:
+        labs.add('exact_structure')
+    if 'bgiven' in prob:
+        labs.add('b_exact_fractions')
     if prob['cscale'] != 1.0:
         labs.add('cscaled')
     if is_neariso(prob):
@@ -363,6 +554,15 @@ def labels_of(prob):
     labs.add('iso_medium' if is_isotropic(prob) else 'aniso_medium')
     labs |= {('C_' + l) for l in g11.labels_of(prob['C']) if l.startswith(('kind_', 'sys_'))}
     return labs
+
+
+def near_axis(loc):
+    """local point 1e-13 .. 2e-3 (relative) off an axis or a diagonal of the frame, not on it"""
+    x, y = abs(float(loc[0])), abs(float(loc[1]))
+    for a, b in ((x, y), (y, x), (abs(x - y), x + y)):
+        if 1e-13 * b < a < 2e-3 * b:                # (below: rounding of cos 90 deg, of a diagonal - an exact point)
+            return True
+    return False
 
 
 def nontrivial(prob):
@@ -392,10 +592,6 @@ _tolopt = st.sampled_from(TOLS)
 _order = st.integers(0, 2)
 
 
-def pow10(k):
-    return float('1e%d' % int(k))
-
-
 @functools.lru_cache(maxsize=None)
 def decade_cases():
     probs = problems()
@@ -409,6 +605,8 @@ def decade_cases():
         lk = draw(_lscale)
         if lk and draw(_bool):
             prob['bsol'] = [v * pow10(lk) for v in prob['bsol']]
+            if 'bgiven' in prob:
+                prob['bgiven'] = [v * pow10(lk) for v in prob['bgiven']]
             prob['bscaled'] = True
         radii = draw(_radii)
         if draw(_sel) <= 8:
@@ -484,7 +682,83 @@ def history_cases():
         elif w <= 3:
             prob['orient'] = {'kind': 'transform', 'rot': [[0, 0, 1], 0.0], 'rowscale': draw(_rowscale),
                               'via': 'axes' if draw(_sel) < 3 else 'transform'}
+        if w <= 3:
+            prob.pop('bgiven', None)                         # (belonged to the orientation that was replaced; bsol stays)
         prob['aslist'] = False                               # the form of every argument is drawn separately (forms)
         return {'prob': prob, 'forms': draw(st.lists(_form, min_size=6, max_size=6)), 'ops': draw(ops),
                 'pts': draw(local_points(2, 4)), 'order': draw(st.integers(0, 10 ** 6))}
     return _h()
+
+
+# ----------------------------------------------------------------------------- storage and input dtypes (clause forms)
+# A forms case is a problem every number of which is exactly representable in narrow dtypes: orientation none / integer rows /
+# Miller indices, m and n default / strings / signed axes handed over as vectors, the Burgers vector in eighths (halves of lattice
+# vectors), field points with integer or quarter-integer Cartesian coordinates UP TO THE LIMITS of the dtype drawn for them.
+# 'dt': for every array-valued argument (b, m, n, T = transform / axes, uvw, hkl, pos) a dtype code of DT; the oracle hands the
+# values over in that dtype where they are exactly representable in it (float64 else).
+DT = ('f8', 'f4', 'f2', '>f8', '>f4', 'i1', 'i2', 'i4', 'i8', 'u1', 'u2', 'u8', '>i2', '>i4', '>i8', 'bool', 'np_int', 'np_f4', 'list')
+_dt_any = st.sampled_from(['f8', 'f4', 'f4', 'f2', 'f2', '>f8', '>f4', 'i1', 'i1', 'i2', 'i4', 'i8', 'u1', 'u1', 'u2', 'u8', '>i2', '>i4',
+                           '>i8', 'bool', 'np_int', 'np_f4', 'list'])
+_dt_pos = st.sampled_from(['f4', 'f4', 'f2', 'f2', '>f8', '>f4', 'i1', 'i1', 'i2', 'i2', 'i4', 'i8', 'u1', 'u1', 'u2', 'u8', '>i2', '>i4',
+                           '>i8', 'bool', 'np_int', 'np_f4', 'f8'])
+POS_RANGE = {'i1': (-128, 127), 'i2': (-32768, 32767), '>i2': (-32768, 32767), 'u1': (0, 255), 'u2': (0, 65535), 'bool': (0, 1),
+             'u8': (0, 100000), 'f2': (-2048, 2048)}
+_unit = st.floats(0.0, 1.0, allow_nan=False, width=32)
+_quarter = st.sampled_from([1.0, 1.0, 0.25, 0.5])
+_pk = st.integers(0, 5)
+
+
+@st.composite
+def _coord(draw, lo, hi):
+    """an integer in lo..hi: the limits and their neighbours, small numbers, or anything in between"""
+    w = draw(_pk)
+    if w == 0:
+        return draw(st.sampled_from([hi, hi, hi - 1, lo, lo, lo + 1]))
+    if w <= 3:
+        return max(lo, min(hi, draw(st.integers(-12, 12))))
+    return lo + int(draw(_unit) * (hi - lo))
+
+
+@functools.lru_cache(maxsize=None)
+def forms_cases():
+    base = problems()
+
+    @st.composite
+    def _f(draw):
+        prob = dict(draw(base))
+        prob.pop('bgiven', None)
+        w = draw(_sel)
+        prob['orient'] = {'kind': 'none'} if w == 0 else draw(rows_spec()) if w <= 6 else draw(miller_spec())
+        w = draw(_sel)
+        if w <= 1:
+            prob['mn'] = {'kind': 'default'}
+        elif w <= 4:
+            m, n = draw(_strpairs)
+            prob['mn'] = {'kind': 'str', 'm': m, 'n': n, 'pass': draw(_strpass)}
+        else:
+            m, n = draw(_axpairs)
+            prob['mn'] = {'kind': 'axis', 'm': list(m), 'n': list(n)}
+        C = prob['C']
+        isotropic = C['kind'] == 'neariso' or (C['kind'] == 'named' and C['system'] == 'isotropic')
+        prob = exact_b(prob, draw(_small), draw(_small), draw(_small), isotropic)
+        prob['aslist'] = False
+        dt = {a: draw(_dt_any) for a in ('b', 'm', 'n', 'T', 'uvw', 'hkl')}
+        dt['pos'] = draw(_dt_pos)
+        lo, hi = POS_RANGE.get(dt['pos'], (-100000, 100000))
+        q = draw(_quarter) if dt['pos'] in ('f8', 'f4', 'f2', '>f8', '>f4', 'np_f4') else 1.0
+        m, n, xi = vr.frame_of(prob['mn'])
+        pts = []
+        for _ in range(draw(st.integers(1, 4))):
+            p = np.array([draw(_coord(lo, hi)) * q for _ in range(3)])
+            x, y = float(p @ m), float(p @ n)
+            if y == 0.0 and x <= 0.0:
+                # on the line or on the cut: move it off along n (or along m when n points to negative coordinates)
+                p = p + (np.abs(n) if (n.min() >= 0 or lo < 0) else 0.0)
+                p = np.clip(p, lo * q, hi * q)
+                x, y = float(p @ m), float(p @ n)
+                if y == 0.0 and x <= 0.0:
+                    p = p + np.abs(m) * (1 - x)
+                    p = np.clip(p, lo * q, hi * q)
+            pts.append([float(v) for v in p])
+        return {'prob': prob, 'dt': dt, 'pts': pts, 'order': draw(st.integers(0, 10 ** 6)), 'mut': draw(st.integers(0, 7))}
+    return _f()
